@@ -2,6 +2,7 @@
 package g
 
 import (
+	"math"
 	"unicode/utf8"
 
 	"pgregory.net/rapid"
@@ -82,3 +83,14 @@ type B = []byte
 func BytesLen(n int) *rapid.Generator[[]byte] {
 	return rapid.SliceOfN(rapid.Byte(), n, n)
 }
+
+// ExtremeInts are argument values at the limits of int and at the 32-bit width and sign boundaries
+// (an implementation that narrows an int, or adds two of them, goes wrong exactly here).
+var ExtremeInts = []int{
+	math.MaxInt, math.MaxInt - 1, math.MaxInt - 2, math.MaxInt - 7, math.MinInt, math.MinInt + 1, math.MinInt + 2,
+	math.MaxInt32, math.MaxInt32 + 1, math.MaxInt32 - 1, math.MinInt32, math.MinInt32 - 1,
+	1 << 32, 1<<32 + 1, 1<<32 + 2, 1<<32 - 1, -(1 << 32), -(1 << 32) + 1, 1 << 33, 1 << 62, -1 << 62, 1 << 31, 1<<31 + 1,
+}
+
+// ExtremeInt draws one of ExtremeInts.
+func ExtremeInt() *rapid.Generator[int] { return rapid.SampledFrom(ExtremeInts) }
